@@ -132,6 +132,21 @@ InitAdd == /\ \E N \in {M \in SUBSET {"a", "a_0", "i.q"} : Cardinality(M) <= 2} 
 NextAdd == AddAct(AddNames, AddTypes, L012(Here), L012(Here))
 SpecAdd == InitAdd /\ [][NextAdd]_vars
 
+(* composition-focused transitions: add_blackbox / add_subcircuit (children with and without a nested blackbox) /
+   fill_blackbox from every legal state over <= 3 nodes with or without the registered instance i; with CGV_EMIT every
+   transition is replayed on the real object. *)
+CompTypes == {"buf", "and", "input", "bb_output", "bb_input"}
+CompStatesOver(N) ==
+  UNION { { [nodes |-> N, ty |-> T, out |-> [x \in N |-> FALSE], edges |-> E, bbs |-> B] :
+              E \in {F \in SUBSET (N \X N) : Cardinality(F) <= 1 /\
+                       StLegalWiring([nodes |-> N, ty |-> T, out |-> [x \in N |-> FALSE], edges |-> F, bbs |-> <<>>])},
+              B \in {<<>>, ("i" :> FF)} }
+          : T \in [N -> CompTypes] }
+InitComp == /\ \E N \in SUBSET {"a", "i.d", "i.q"} : st \in {s \in CompStatesOver(N) : StBBConsistent(s, {})}
+            /\ removed = {} /\ last = "" /\ lastExc = ""
+NextComp == AddSubAct \/ AddBlackboxAct \/ FillAct
+SpecComp == InitComp /\ [][NextComp]_vars
+
 Depth4 == TLCGet("level") <= 4
 Depth2 == TLCGet("level") <= 1
 
